@@ -13,7 +13,9 @@ import (
 	"verif/harness/stx"
 )
 
-var c12Comps = []string{"a", "b", "c", "ab"}
+// components: plain ones, one that extends another ("ab"), and ones that extend "a" by a
+// byte sorting BEFORE '/' ('-', '.', '+'), so that "a-b/..." sorts between "a" and "a/..."
+var c12Comps = []string{"a", "b", "c", "ab", "a-b", "a.b", "a+"}
 
 func c12Names() (good, bad []string) {
 	var rec func(prefix string, depth int)
